@@ -1112,6 +1112,7 @@ class Rewriter:
         # `res?` converts crate::AllocErr through `impl From<AllocErr> for CollectionAllocErr` (a constant function)
         # constructors / shrink_to_fit
         b = self.sub('R20:dangling', r'\bNonNull::<T>::dangling\(\)|\bNonNull::dangling\(\)', 'dangling_T()', b)
+        b = self.sub('R20:nonnull-new-unchecked', r'\bNonNull::new_unchecked\(', 'nonnull_new_unchecked(', b)
         b = self.map_calls(b, r'\ba\.alloc_zeroed', lambda m_, a: 'arena_alloc_zeroed(ar, %s)' % ', '.join(a), 'R20:arena-alloc-zeroed')
         b = self.sub('R20:result-unwrap', r'(Layout::from_size_align\([^;]*?\))\.unwrap\(\)', r'res_unwrap(\1)', b)
         b = self.sub('R20:model-type', r'(?<![\w:])RawVec \{', 'RawVecG {', b)
